@@ -15,7 +15,7 @@ NAMES = ["fft", "fft2", "fftn", "ifft", "ifft2", "ifftn", "rfft", "rfft2", "rfft
 ONE_D = {"fft", "ifft", "rfft", "irfft", "hfft", "ihfft"}
 TWO_D = {"fft2", "ifft2", "rfft2", "irfft2"}
 REAL_IN = {"rfft", "rfft2", "rfftn", "ihfft"}
-DTYPES = ["f4", "f8", "c8", "c16", "i2", "i8", "u1", "b1"]
+DTYPES = ["f4", "f8", "c8", "c16", "i2", "i8", "u1", "b1", "f2", "ld", "cld"]  # (half precision is computed in single, extended stays extended)
 EXHAUSTIVE = {"quick": False, "thorough": False}
 ASSUMPTIONS = [
     "values are compared with numpy.fft.<same name> (an implementation independent of scipy.fft, which pb.fft wraps); shape and dtype with "
@@ -31,7 +31,7 @@ def fft_case(draw):
     shape = [draw(st.integers(1, 6)) for _ in range(rank)]
     big = draw(st.integers(0, 11)) == 0
     dtype = draw(st.sampled_from(DTYPES))
-    if name in REAL_IN and dtype in ("c8", "c16"):
+    if name in REAL_IN and dtype in ("c8", "c16", "cld"):
         dtype = draw(st.sampled_from(["f4", "f8", "i2"]))
     kw = {}
     if name in ONE_D:
@@ -329,7 +329,7 @@ def run_stft_err(spec, stt):
 
 SUBS = [
     Sub("transforms", fft_case(), run_fft,
-        "the 14 names x rank 1..3 shapes x dtypes f4/f8/c8/c16/i2/i8/u1/bool x axis/axes (negative, permuted) x n/s shorter/longer x norm; NumPy "
+        "the 14 names x rank 1..3 shapes x dtypes f4/f8/c8/c16/i2/i8/u1/bool/f2/longdouble/clongdouble x axis/axes (negative, permuted) x n/s shorter/longer x norm; NumPy "
         "and Dask (chunked off the transformed axes; chunked on them must raise; lazy via a counting sentinel); non-trivial = an axis other than "
         "the last, or n/s given, or a non-default norm", quick=3000, thorough=60000, pieces_quick=6),
     EnumSub("names", enum_names, replay_name, "dir(pb.fft) is exactly the 14 names, each callable and same-named; 14 other names raise "
